@@ -207,7 +207,7 @@ theorem readHeader_cases (f : Frame) (fs : List Frame) (co co' : Byte) (j : Nat)
       ((∃ j' opc' fin' pl' co'', j' < f.header.length ∧ (co'' = co ∨ (2 ≤ j' ∧ co'' = f.nextCo co)) ∧
           readHeader (ctxAtHeader (f.header.take j) opc fin pl co') e =
             ⟨ctxAtHeader (f.header.take j') opc' fin' pl' co'', e', .headerPending, .again, []⟩ ∧
-          e'.pending = f.header.drop j' ++ body) ∨
+          e'.pending = f.header.drop j' ++ body ∧ (e.Stuck ∨ j < j')) ∨
        (readHeader (ctxAtHeader (f.header.take j) opc fin pl co') e =
             ⟨ctxInFrame f co 0 [] [] (some f.header.length) .headerPending, e', .dataNeeded, .again, []⟩ ∧
           e'.pending = body)) := by
@@ -225,10 +225,10 @@ theorem readHeader_cases (f : Frame) (fs : List Frame) (co co' : Byte) (j : Nat)
   generalize hr : e.read j ((W : Int) - j) = r at hff1 hs1 hc1
   obtain ⟨o, e1⟩ := r
   simp only at hff1 hs1 hc1
-  rcases hc1 with ⟨ho, hp1⟩ | ⟨t, ht0, htN, htl, ho, hp1⟩
+  rcases hc1 with ⟨ho, hp1, hstuck⟩ | ⟨t, ht0, htN, htl, ho, hp1⟩
   · -- EAGAIN on the first read: everything kept
     subst ho
-    refine ⟨e1, hff1, hs1, Or.inl ⟨j, opc, fin, pl, co', hj, hco, rfl, ?_⟩⟩
+    refine ⟨e1, hff1, hs1, Or.inl ⟨j, opc, fin, pl, co', hj, hco, rfl, ?_, Or.inl hstuck⟩⟩
     rw [hp1, hpend]
   · subst ho
     simp only
@@ -242,7 +242,7 @@ theorem readHeader_cases (f : Frame) (fs : List Frame) (co co' : Byte) (j : Nat)
     by_cases hj1 : j + t < 2
     · rw [parse2_short f (j + t) hj1]
       simp only
-      refine ⟨e1, hff1, hs1, Or.inl ⟨j + t, opc, fin, pl, co', by omega, ?_, rfl, ?_⟩⟩
+      refine ⟨e1, hff1, hs1, Or.inl ⟨j + t, opc, fin, pl, co', by omega, ?_, rfl, ?_, Or.inr (by omega)⟩⟩
       · rcases hco with h | ⟨h, _⟩
         · exact Or.inl h
         · omega
@@ -267,14 +267,14 @@ theorem readHeader_cases (f : Frame) (fs : List Frame) (co co' : Byte) (j : Nat)
           ((∃ j' opc' fin' pl' co'', j' < f.header.length ∧ (co'' = co ∨ (2 ≤ j' ∧ co'' = f.nextCo co)) ∧
               finishHeader (ctxAtHeader (f.header.take j2) (f.effOp co) f.fin f.l7 (f.nextCo co)) e2 =
                 ⟨ctxAtHeader (f.header.take j') opc' fin' pl' co'', e', .headerPending, .again, []⟩ ∧
-              e'.pending = f.header.drop j' ++ body) ∨
+              e'.pending = f.header.drop j' ++ body ∧ (e.Stuck ∨ j < j')) ∨
            (finishHeader (ctxAtHeader (f.header.take j2) (f.effOp co) f.fin f.l7 (f.nextCo co)) e2 =
                 ⟨ctxInFrame f co 0 [] [] (some f.header.length) .headerPending, e', .dataNeeded, .again, []⟩ ∧
               e'.pending = body)) := by
         intro j2 e2 h1 h2 hf2 hs2 hp2
         by_cases hlt : j2 < f.header.length
         · refine ⟨e2, hf2, hs2, Or.inl ⟨j2, _, _, _, _, hlt, Or.inr ⟨by omega, rfl⟩,
-            finishHeader_incomplete f j2 hlt _ _ _ e2, hp2⟩⟩
+            finishHeader_incomplete f j2 hlt _ _ _ e2, hp2, Or.inr (by omega)⟩⟩
         · have : j2 = f.header.length := by omega
           subst this
           refine ⟨e2, hf2, hs2, Or.inr ⟨?_, ?_⟩⟩
@@ -287,10 +287,11 @@ theorem readHeader_cases (f : Frame) (fs : List Frame) (co co' : Byte) (j : Nat)
         generalize hr2 : e1.read (j + t) ((f.header.length : Int) - ((j + t : Nat) : Int)) = r2 at hff2 hs2 hc2
         obtain ⟨o2, e2⟩ := r2
         simp only at hff2 hs2 hc2
-        rcases hc2 with ⟨ho2, hp2⟩ | ⟨t2, ht20, ht2N, ht2l, ho2, hp2⟩
+        rcases hc2 with ⟨ho2, hp2, _⟩ | ⟨t2, ht20, ht2N, ht2l, ho2, hp2⟩
         · subst ho2
           simp only
-          refine ⟨e2, hff2, hs2, Or.inl ⟨j + t, _, _, _, _, by omega, Or.inr ⟨by omega, rfl⟩, rfl, ?_⟩⟩
+          refine ⟨e2, hff2, hs2, Or.inl ⟨j + t, _, _, _, _, by omega, Or.inr ⟨by omega, rfl⟩, rfl, ?_,
+            Or.inr (by omega)⟩⟩
           rw [hp2, hp1, hdrop]
         · subst ho2
           simp only
